@@ -94,6 +94,17 @@ CHECKS = {
                      "(7 families incl. unsupported operators, odd ranks/dtypes, CPU/NPU mixes) x CLI option points are compiled "
                      "in fresh processes; a traceback, timeout, silent non-zero exit or missing output is reported with the job as replay.",
                 note=TB + "; tools/netgen.py models stand for 'structurally valid flatbuffers'; the sweep samples the model space"),
+    "C19": dict(cat="proof", ref="7/C19", technique="Coq theorems: fp_math.py translated from the source every run = gemmlowp/TFLite reference transcriptions for all int32/int16 operands; integer LUT entry models = reference kernels; per-table Coq-Interval certificates for sigmoid/tanh",
+                text="srdhm32/16_eq_gemmlowp, rdbpot_eq_gemmlowp, srmbpot_eq, rescale_eq, mbqm_eq_reference (with the exact precondition), "
+                     "exp_on_negative_values_eq/_total (every intermediate proved inside int32), shift_left*_saturates, "
+                     "downscale_multiplier_eq for ALL operands in the stated domains; lut_lrelu_correct, lut_hardswish_correct, "
+                     "optimise_quantize_fold_correct equate the table-entry models with transcriptions of the reference kernels for "
+                     "all codes and multipliers. Sigmoid/tanh tables produced by the real rewrite are certified entry by entry with "
+                     "`interval` (|v - f(x)/s + zp| <= 1/2 + 2^-10 or the saturated form) for sampled parameter sets. NumPy scalar "
+                     "argument types are exercised per real call site by correspondence.",
+                note=TB + "; certificates use the standard real-number axioms (ClassicalDedekindReals.sig_not_dec, Classical_Prop.classic) "
+                     "and primitive floats/ints inside Coq-Interval; entry models are tied by correspondence with the real rewrites; "
+                     "create_lut_8bit_op/int16 exp/log/gelu tables and the rsqrt table are not covered"),
 }
 
 NOT_YET = {}
